@@ -148,13 +148,38 @@ def _ce(spec):
             ce = ce.lower()
         elif o[0] == "substr":
             ce = ce.substr(o[1], o[2])
+        elif o == "cast_to_string":
+            ce = ce.cast_to_string()
         elif o[0] == "regex":
-            ce = ce.regex_extract(o[1])
+            ce = ce.regex_extract(o[1]) if len(o) == 2 else ce.regex_extract(o[1], o[2])
         elif o[0] == "nullif":
             ce = ce.nullif(o[1])
+        elif o[0] == "try_parse_date":
+            ce = ce.try_parse_date(o[1]) if o[1] is not None else ce.try_parse_date()
+        elif o[0] == "try_parse_timestamp":
+            ce = ce.try_parse_timestamp(o[1]) if o[1] is not None else ce.try_parse_timestamp()
+        elif o[0] == "elem":
+            ce = ce.access_extreme_array_element(o[1])
         else:
             raise ValueError(o)
     return ce
+
+
+def _real(v):
+    """Constructor argument of a spec -> the real Python object: {'__tuple': [...]} -> tuple, {'__iter': [...]} -> a one-shot
+    iterator (the creators document `Iterable`), everything else as it is."""
+    if isinstance(v, dict) and "__tuple" in v:
+        return tuple(v["__tuple"])
+    if isinstance(v, dict) and "__iter" in v:
+        return iter(list(v["__iter"]))
+    return v
+
+
+def _plain(v):
+    """The same argument as a plain list (for the ComparisonKind term built from the arguments)."""
+    if isinstance(v, dict) and ("__tuple" in v or "__iter" in v):
+        return list(v.get("__tuple", v.get("__iter")))
+    return v
 
 
 def comparison_specs() -> list[dict]:
@@ -212,6 +237,41 @@ def comparison_specs() -> list[dict]:
     add({"creator": "ForenameSurnameComparison", "kw": {"forename_col_name": "s", "surname_col_name": "s2", "jaro_winkler_thresholds": [0.8, 0.95]}})
     add({"creator": "CustomComparison", "kw": {"levels": "std"}})
     add({"creator": "CustomComparison", "kw": {"levels": "no_else"}})
+    # ---- audit c16: argument FORMS and boundary shapes the signatures admit
+    # thresholds given as an empty list, with a repeated value, as a tuple, as a one-shot iterator, as the scalars 0 / 1
+    add({"creator": "LevenshteinAtThresholds", "kw": {"col_name": "s", "distance_threshold_or_thresholds": []}})
+    add({"creator": "LevenshteinAtThresholds", "kw": {"col_name": "s", "distance_threshold_or_thresholds": [1, 1]}})
+    add({"creator": "LevenshteinAtThresholds", "kw": {"col_name": "s", "distance_threshold_or_thresholds": {"__tuple": [1, 2]}}})
+    add({"creator": "DamerauLevenshteinAtThresholds", "kw": {"col_name": ["s", ["substr", 1, 3]], "distance_threshold_or_thresholds": 0}})
+    add({"creator": "JaroWinklerAtThresholds", "kw": {"col_name": "s", "score_threshold_or_thresholds": {"__iter": [0.9, 0.7]}}})
+    add({"creator": "JaroWinklerAtThresholds", "kw": {"col_name": "s", "score_threshold_or_thresholds": 1}})
+    add({"creator": "JaroAtThresholds", "kw": {"col_name": "s", "score_threshold_or_thresholds": []}})
+    # a SQL expression / a column name that needs quoting as the compared column
+    add({"creator": "ExactMatch", "kw": {"col_name": "s || s2"}})
+    add({"creator": "ExactMatch", "kw": {"col_name": "sur name"}})
+    add({"creator": "JaroWinklerAtThresholds", "kw": {"col_name": "sur name", "score_threshold_or_thresholds": [0.9]}})
+    add({"creator": "NameComparison", "kw": {"col_name": "s", "jaro_winkler_thresholds": 0.88, "dmeta_col_name": "a"}})  # scalar exactly on the 0.88 split
+    add({"creator": "NameComparison", "kw": {"col_name": "s", "jaro_winkler_thresholds": []}})
+    add({"creator": "ForenameSurnameComparison", "kw": {"forename_col_name": "s", "surname_col_name": "s2", "jaro_winkler_thresholds": 0.9}})
+    add({"creator": "ForenameSurnameComparison", "kw": {"forename_col_name": ["s", "lower"], "surname_col_name": ["s2", "lower"], "jaro_winkler_thresholds": {"__tuple": [0.92]}}})
+    add({"creator": "ForenameSurnameComparison", "kw": {"forename_col_name": "s", "surname_col_name": "sur name", "jaro_winkler_thresholds": []}})
+    add({"creator": "EmailComparison", "kw": {"col_name": ["em", "lower"]}})
+    add({"creator": "CustomComparison", "kw": {"levels": "dicts"}})
+    # struct / array references as latitude and longitude (documented: long_lat['lat'], long_lat[0]); threshold 0
+    add({"creator": "DistanceInKMAtThresholds", "kw": {"lat_col": "ll['lat']", "long_col": "ll['lng']", "km_thresholds": [10, 5570]}})
+    add({"creator": "DistanceInKMAtThresholds", "kw": {"lat_col": "lat", "long_col": "lng", "km_thresholds": 0}})
+    add({"creator": "PostcodeComparison", "kw": {"col_name": "pc", "lat_col": "lat", "long_col": "lng", "km_thresholds": 5}})
+    add({"creator": "PostcodeComparison", "kw": {"col_name": "pc", "long_col": "lng"}})
+    add({"creator": "ArrayIntersectAtSizes", "kw": {"col_name": "a", "size_threshold_or_thresholds": {"__tuple": [2, 1]}}})
+    add({"creator": "ArrayIntersectAtSizes", "kw": {"col_name": "a", "size_threshold_or_thresholds": 0}})
+    add({"creator": "PairwiseStringDistanceFunctionAtThresholds", "kw": {"col_name": "a", "distance_function_name": "jaro_winkler", "distance_threshold_or_thresholds": 1}})
+    add({"creator": "CosineSimilarityAtThresholds", "kw": {"col_name": "e", "score_threshold_or_thresholds": 1}})
+    # date / time comparisons: scalar threshold + metric, zero threshold, a timestamp format, TF flag, typed input with the validity flag given
+    add({"creator": "DateOfBirthComparison", "kw": {"col_name": "ds", "input_is_string": True, "datetime_thresholds": 5, "datetime_metrics": "year"}})
+    add({"creator": "DateOfBirthComparison", "kw": {"col_name": "dd", "input_is_string": False, "invalid_dates_as_null": False, "datetime_thresholds": [0, 1], "datetime_metrics": ["day", "month"]}})
+    add({"creator": "AbsoluteTimeDifferenceAtThresholds", "kw": {"col_name": "tf", "input_is_string": True, "metrics": ["second", "day"], "thresholds": [0, 1], "datetime_format": "%d/%m/%Y %H:%M:%S"}})
+    add({"creator": "AbsoluteTimeDifferenceAtThresholds", "kw": {"col_name": "tt", "input_is_string": False, "metrics": "minute", "thresholds": 90, "invalid_dates_as_null": True}})
+    add({"creator": "AbsoluteDateDifferenceAtThresholds", "kw": {"col_name": "ds", "input_is_string": True, "metrics": {"__tuple": ["day", "year"]}, "thresholds": {"__tuple": [1, 0.5]}, "term_frequency_adjustments": True}})
     return S
 
 
@@ -227,6 +287,10 @@ def custom_levels(which: str):
                 {"sql_condition": "substr(s_l, 1, 1) = substr(s_r, 1, 1)", "label_for_charts": "first letter"}, cll.ElseLevel()]
     if which == "no_else":
         return [cll.NullLevel("s"), cll.ExactMatchLevel("s"), cll.LevenshteinLevel("s", 1)]
+    if which == "dicts":  # plain dicts as levels, also INSIDE And / Or / Not (the compositions accept dicts)
+        first = {"sql_condition": "substr(s_l, 1, 1) = substr(s_r, 1, 1)"}
+        return [cll.NullLevel("s"), cll.And(dict(first), cll.ExactMatchLevel("s2")), cll.Or(cll.LevenshteinLevel("s", 1), dict(first, label_for_charts="first letter")),
+                cll.Not(dict(first)), cll.ElseLevel()]
     raise ValueError(which)
 
 
@@ -234,7 +298,7 @@ def build_comparison(spec: dict, dialect: str = "duckdb"):
     """The REAL creator object of a spec (a fresh object on every call)."""
     from splink.internals import comparison_library as clib
 
-    kw = dict(spec["kw"])
+    kw = {k: _real(v) for k, v in spec["kw"].items()}
     for k in ("col_name", "forename_col_name", "surname_col_name", "lat_col", "long_col"):
         if k in kw:
             kw[k] = _ce(kw[k])
@@ -263,7 +327,7 @@ def kind_term(spec: dict, dialect: str = "duckdb") -> dict:
 
     from splink.internals import comparison_library as clib
 
-    kw = dict(spec["kw"])
+    kw = {k: _plain(v) for k, v in spec["kw"].items()}
     cr = spec["creator"]
 
     def default(name):
